@@ -176,6 +176,9 @@ def _wrap_builtin(name, orig):
         mut0 = rec.mutator_calls
         try:
             r = orig(*args, **kw)
+            if type(r) is str and len(r) > 3000000:
+                from .seams import RunTooBig        # a text of millions of characters built inside one call (reduce over join ...)
+                raise RunTooBig('builtin %s returned a string of %d characters' % (name, len(r)))
         except BaseException as e:
             if type(e).__name__ in ('RunTimeout', 'RunTooBig'):
                 raise
